@@ -188,6 +188,14 @@ func suiteWatch(t *testing.T, cfg cfgT) {
 					return fmt.Sprintf("class %s implements Namespace { related: { r: %s[]; s: %s[] } permits = { p: (ctx) => %s } }\nclass %s implements Namespace { related: { u: %s[];%s } }",
 						k1, k1, k1, body, k2, k1, extra), true, []string{k1, k2}
 				}
+				if valid && hr.chance(1, 6) {
+					// a LARGE valid document (more than 64 KiB, most of it a comment): all of it counts, wherever the bulk sits
+					pad := "/* " + strings.Repeat("padding ", 9000) + "*/\n"
+					a := fmt.Sprintf("class %s implements Namespace {}\n", n1)
+					b := fmt.Sprintf("class %s implements Namespace { related: { r: %s[] } }\n", n2, n1)
+					doc := []string{pad + a + b, a + pad + b, a + b + pad}[version%3]
+					return doc, true, []string{n1, n2}
+				}
 				switch {
 				case valid && hr.chance(1, 3):
 					return fmt.Sprintf("class %s implements Namespace {}\nclass %s implements Namespace { related: { r: %s[] } }", n1, n2, n1), true, []string{n1, n2}
